@@ -2,6 +2,7 @@
 import json
 
 import common as C
+import srctie
 from props import deps_lib as L
 
 META = dict(
@@ -330,6 +331,11 @@ def corpus_known(ctx, rep):
 def run(ctx):
     rep = C.Report(ctx, META)
     rep.add_obligations(C.proof_obligations("C12"))
+    # source tie: Receiver.run_task re-translated from the source text (read over Deps.v's alphabet);
+    # srcproofs/Src_run_task_C12.v re-checked against it
+    src_obs, src_info = srctie.obligations(ctx, "run_task_deps", "C12")
+    rep.add_obligations(src_obs)
+    rep.extra["source_tie"] = src_info
     corpus = [c for _, c in C.load_corpus("C12")]
     if corpus:
         explore(ctx, rep, corpus, "corpus")
